@@ -4,7 +4,8 @@ import SqlObjVerif.Lemmas.Expr
 
 `e : BoolE` / `e : NumE` range over ALL well-typed source trees (any depth, operator-built and
 function-built nodes, constants on either side, negative constants, empty and NULL-containing IN
-lists); `d : String` over all dialect names; `P : Prec` over ALL assignments of binding powers to
+lists, and boolean subexpressions used as operands of comparisons / arithmetic — `E.b2i`, read by
+SQL as 1 / 0 / NULL); `d : String` over all dialect names; `P : Prec` over ALL assignments of binding powers to
 the binary operators (left and right), the prefix operators and `IN`; `r : Row` over all rows
 (columns hold `Option Int`).  `buildB` / `buildN` use the operator tables of `Extracted/Expr.lean`,
 so the statements are about what the current source emits.
@@ -31,7 +32,7 @@ theorem C03_parse_render_nodes (P : Prec) (d : String) (n : Node) (h : wf false 
   rw [render_eq]; exact parse_rend_top P _ h
 
 example : parse ⟨fun _ => 1, fun _ => 1, fun _ => 0, 1⟩
-    (render "sqlite" false (buildB (.andOp (.notFn (.isin (.neg (.col 0)) [none, some (.const (-1))]))
+    (render "sqlite" false (buildB (.andOp (.notFn (.isin (.neg (.col 0)) (items [none, some (.const (-1))])))
       (.cmp .lt (.const 2) (.ar .mod (.col 1) (.const 2)))))) =
     some (.bin .and (.un .not (.isin (.un .neg (.col 0)) (.cons .null (.cons (.un .neg (.num 1)) .nil))))
       (.bin .gt (.bin .mod (.col 1) (.num 2)) (.num 2))) := by decide
@@ -92,9 +93,24 @@ theorem C03_filter_sound (P : Prec) (d : String) (e : BoolE) (r : Row) :
   simp
 
 example : evalB (fun c => if c = 0 then none else some 2)
-    (.notin (.col 1) [some (.const 1), none]) = none := by decide
+    (.notin (.col 1) (items [some (.const 1), none])) = none := by decide
 example : selected ⟨fun _ => 1, fun _ => 1, fun _ => 0, 1⟩ "mysql"
     (.orOp (.eqNone (.col 0)) (.cmp .lt (.col 0) (.const 0))) (fun c => if c = 0 then none else some 2) = true := by
+  decide
+
+/-- a boolean subexpression used as a number (`(a == None) == (b == None)`,
+    `(a == None) + (b == None) >= 1`) is the SAME object; its value is 1 / 0 / NULL.  Together with
+    `C03_parse_render` / `C03_filter_sound` (which quantify over trees containing `b2i`) this says a
+    NULL test or comparison nested under `= < + - *` is neither captured nor re-valued. -/
+theorem C03_bool_as_number (d : String) (b : BoolE) (r : Row) :
+    buildN (.b2i b) = buildB b ∧ evalN r (.b2i b) = (evalB r b).map b2i ∧
+    ev r (toT d (buildN (.b2i b))) = .v ((evalB r b).map b2i) :=
+  ⟨rfl, rfl, ev_buildB r d b⟩
+
+example : selected ⟨fun _ => 1, fun _ => 1, fun _ => 0, 1⟩ "sqlite"
+    (.cmp .eq (.b2i (.eqNone (.col 0))) (.b2i (.eqNone (.col 1)))) (fun c => if c = 0 then none else some 2) = false
+  ∧ render "sqlite" false (buildB (.cmp .eq (.b2i (.eqNone (.col 0))) (.b2i (.eqNone (.col 1))))) =
+    [.lp, .lp, .lp, .col 0, .rp, .op .is, .null, .rp, .op .eq, .lp, .lp, .col 1, .rp, .op .is, .null, .rp, .rp] := by
   decide
 
 /-- `AND(e, e₁, …, eₙ)` (in whichever fold direction the source has) is the n-ary conjunction:
@@ -117,7 +133,7 @@ theorem C03_in_sem (x : Option Int) (ys : List (Option Int)) : in3 x ys = inSpec
 /-- `x == None` / `x != None` build exactly what `ISNULL(x)` / `ISNOTNULL(x)` build … -/
 theorem C03_eq_none_is_null (x : NumE) :
     buildB (.eqNone x) = buildB (.isnull x) ∧ buildB (.neNone x) = buildB (.isnotnull x) := by
-  constructor <;> simp only [buildB] <;> split <;> rfl
+  constructor <;> simp only [buildB, build] <;> split <;> rfl
 
 /-- … which renders `(<x>) IS NULL` / `(<x>) IS NOT NULL` in every dialect -/
 theorem C03_eq_none_renders_is_null (d : String) (x : NumE) :
@@ -126,7 +142,7 @@ theorem C03_eq_none_renders_is_null (d : String) (x : NumE) :
     render d false (buildB (.neNone x)) =
       Tok.lp :: (wrapS (render d false (buildN x)) ++ [Tok.op .isNot, Tok.null, Tok.rp]) := by
   rw [(C03_eq_none_is_null x).1, (C03_eq_none_is_null x).2]
-  simp [buildB, render, renderOp, wrapS, Extracted.isnullOp, Extracted.isnotnullOp]
+  simp [buildB, build, render, renderOp, wrapS, Extracted.isnullOp, Extracted.isnotnullOp]
 
 /-- In no rendering of any tree, in any dialect, is an (in)equality operator (`=`, `<>`, `!=`, `==`)
     immediately followed by `NULL`. -/
@@ -146,7 +162,7 @@ theorem C03_negative_constant_wrapped (d : String) (n : Nat) :
       [Tok.lp, Tok.pre .neg, Tok.num (n + 1), Tok.rp] := by
   have h : (-((n + 1 : Nat) : Int)) < 0 := by omega
   have h2 : (-((n + 1 : Nat) : Int)).natAbs = n + 1 := by omega
-  simp only [buildN, render, h, if_true, h2, wrapS]
+  simp only [buildN, build, render, h, if_true, h2, wrapS]
   rfl
 
 /-- whatever the binding power of unary minus, what is read back under a unary minus / plus is
@@ -157,6 +173,6 @@ theorem C03_unary_minus_no_capture (P : Prec) (d : String) (x : NumE) (r : Row) 
   constructor
   · rw [C03_parse_render_num]; rfl
   · have := ev_buildN r d (.neg x)
-    simpa [buildN, toT, Extracted.negOp, evalN] using this
+    simpa [buildN, build, toT, Extracted.negOp, evalN, eval] using this
 
 end SqlObjVerif.Expr
